@@ -75,7 +75,13 @@ def run_file(job):
             r = run_cli(argv, timeout=120)
             out = lines_of(read_out(out_path)) if os.path.exists(out_path) else []
             st = r["status"] if r["status"] == "ok" else r["status"] + ":" + r["exc"][:50]
-            cases.append({"id": f"{fid}.{path}", "path": mode or path, "status": st, "recs": pair_up(inp_lines, out)})
+            def cut(l):
+                return l.split("\t")[0].split(" ")[0]
+
+            # (all of these commands keep the input order; a selection keeps the order of the selected records)
+            sel = {cut(l) for l in out}
+            in_order = [cut(l) for l in out] == [cut(l) for l in inp_lines if cut(l) in sel]
+            cases.append({"id": f"{fid}.{path}", "path": mode or path, "status": st, "recs": pair_up(inp_lines, out), "in_order": in_order})
             return out
 
         run_cli(["index", gaf, gfa])
@@ -111,7 +117,7 @@ def run_file(job):
                                 env=dict(os.environ, PYTHONPATH=REPO, PYTHONIOENCODING="ascii", PYTHONUTF8="0"))
             if pr.returncode == 0:
                 outl = lines_of(pr.stdout.decode("utf-8", "replace"))
-                cases.append({"id": f"{fid}.node_ascii_stdout", "path": "node", "status": "ok", "recs": pair_up(lines, outl)})
+                cases.append({"id": f"{fid}.node_ascii_stdout", "path": "node", "status": "ok", "recs": pair_up(lines, outl), "in_order": True})
         # the same path, now holding the BGZF form of the same records (what `sort --bgzip -o` or a re-compression leaves):
         # the reader decides by content, in this process it has read the path as plain text a moment ago
         write_text(gaf, join_lines(lines, fid), "bgzf", block=250)
